@@ -106,6 +106,8 @@ def run(chk, ctx) -> None:
                'every path through the phase end hands over to exactly one next phase',
                got=bad_paths[:3] if bad_paths else 'one hand-over per path')
     chk.floor('C07.graph', 10)
+    from .cover import handover_last
+    handover_last(chk, ctx, 'C07.handover_once')
     for name in ms:
         if name.startswith('_end_') and name not in GRAPH:
             chk.ob('C07.graph', f'State.{name}', False, ms[name].loc, 'phase end that is not in the documented phase graph')
